@@ -2,6 +2,7 @@ import KcpVerif.Lemmas.KcpWindow
 import KcpVerif.Lemmas.KcpWire
 import KcpVerif.Lemmas.KcpAdmit
 import KcpVerif.Lemmas.KcpCwnd
+import KcpVerif.Lemmas.KcpClosed
 /-!
 C04 — window discipline: bounded buffering, truthful window, backpressure.
 
@@ -195,6 +196,92 @@ theorem C04_after_collapse_no_admission (k : Kcp) (full : Bool) (now : U32) (h :
     rw [hc] at this
     bv_omega)
   exact ⟨this.1, this.2.1⟩
+
+/-! #### "nothing new after a timeout loss until the oldest outstanding segment is acknowledged" -/
+
+/-- the clause as the property has it: from any reachable state with congestion control on, after a full
+flush at `now` that retransmits by timeout, along ANY further run `ops2` (any operations, any input)
+during which congestion control stays on and `snd_una` does not move, `snd_nxt` does not move either. -/
+def C04_no_admission_until_ack_full : Prop :=
+  ∀ (conv snd0 rcv0 : U32) (ops1 : List Op) (now : U32) (ops2 : List Op),
+    okRun (start conv snd0 rcv0) ops1 →
+    (run (start conv snd0 rcv0) ops1).nocwnd = 0 →
+    flushLost (run (start conv snd0 rcv0) ops1) now > 0 →
+    okRun (flush (run (start conv snd0 rcv0) ops1) true now).k ops2 →
+    allAfter (fun x => x.nocwnd = 0 ∧
+        x.snd_una = (flush (run (start conv snd0 rcv0) ops1) true now).k.snd_una)
+      (flush (run (start conv snd0 rcv0) ops1) true now).k ops2 →
+    (run (flush (run (start conv snd0 rcv0) ops1) true now).k ops2).snd_nxt =
+      (flush (run (start conv snd0 rcv0) ops1) true now).k.snd_nxt
+
+/-- PROVED PART: the clause holds whenever no fast-resend threshold is configured (`fastresend ≤ 0` as
+int32 — the default; only `NoDelay(_, _, resend, _)` with `resend > 0` changes it) in every state of the run.
+Missing for the full statement: `fastresend > 0`, where the statement is FALSE (next theorem). -/
+theorem C04_no_admission_until_ack_partial
+    (conv snd0 rcv0 : U32) (ops1 : List Op) (now : U32) (ops2 : List Op)
+    (hok1 : okRun (start conv snd0 rcv0) ops1)
+    (hn : (run (start conv snd0 rcv0) ops1).nocwnd = 0)
+    (hf : (run (start conv snd0 rcv0) ops1).fastresend.sle 0 = true)
+    (hl : flushLost (run (start conv snd0 rcv0) ops1) now > 0)
+    (hok2 : okRun (flush (run (start conv snd0 rcv0) ops1) true now).k ops2)
+    (hq : allAfter (fun x => x.nocwnd = 0 ∧ x.fastresend.sle 0 = true ∧
+        x.snd_una = (flush (run (start conv snd0 rcv0) ops1) true now).k.snd_una)
+      (flush (run (start conv snd0 rcv0) ops1) true now).k ops2) :
+    (run (flush (run (start conv snd0 rcv0) ops1) true now).k ops2).snd_nxt =
+      (flush (run (start conv snd0 rcv0) ops1) true now).k.snd_nxt := by
+  have hi := reachable_inv conv snd0 rcv0 ops1 hok1
+  have hi' := flush_inv _ true now hi
+  have hc := closed_after_rto _ now hn hf hl
+  exact (closed_run _ ops2 hok2 hi' hc hq).2
+
+/-- the same from ANY state with the window invariant and a closed congestion window
+(`Closed`: `nocwnd = 0`, `fastresend ≤ 0`, something in flight, `cwnd ≤` in flight) -/
+theorem C04_closed_window_stays_closed (k : Kcp) (ops : List Op) (hok : okRun k ops) (hi : Inv k) (hc : Closed k)
+    (hq : allAfter (fun k' => k'.nocwnd = 0 ∧ k'.fastresend.sle 0 = true ∧ k'.snd_una = k.snd_una) k ops) :
+    Closed (run k ops) ∧ (run k ops).snd_nxt = k.snd_nxt := closed_run k ops hok hi hc hq
+
+/-- ACK segments for conv 9: `ackS0` acknowledges sn 0 with una 1; `ackS2` acknowledges sn 2, una still 1 -/
+def ackS0 : Bytes := [9,0,0,0, 82,0, 32,0, 110,0,0,0, 0,0,0,0, 1,0,0,0, 0,0,0,0]
+def ackS2 : Bytes := [9,0,0,0, 82,0, 32,0, 0xE8,3,0,0, 2,0,0,0, 1,0,0,0, 0,0,0,0]
+
+/-- congestion control on, fast resend after 2 duplicate acks (`NoDelay(0, 100, 2, 0)`); segment 0 is sent
+and acknowledged (`cwnd` 1 → 2), segments 1 and 2 are sent -/
+def frOps1 : List Op :=
+  [.noDelay 0 100 2 0, .send [1], .send [2], .send [3], .send [4], .send [5], .flush true 100, .flush true 110,
+   .input ackS0 true false 120]
+/-- two duplicate acknowledgements of segment 2, then a flush -/
+def frOps2 : List Op := [.input ackS2 true false 1010, .input ackS2 true false 1011, .flush true 1020]
+
+/-- THE FULL CLAUSE IS FALSE for the model (and, by the same run, for kcp.go — confirmed on the real
+code): with `fastresend = 2` the timeout flush at t = 1000 collapses `cwnd` to 1, the two duplicate
+acknowledgements make the next flush fast-retransmit segment 1, phase 6 sets
+`cwnd = max(inflight/2, 2) + fastresend = 4 > 2` segments in flight, and the flush after that admits
+segments 3 and 4 — `snd_nxt` 3 → 5 — while `snd_una = 1` has not moved (classic fast recovery). -/
+theorem C04_no_admission_until_ack_full_false : ¬ C04_no_admission_until_ack_full := by
+  intro h
+  have := h 9 0 0 frOps1 1000 frOps2 (by decide) (by decide) (by decide) (by decide) (by decide)
+  revert this
+  decide
+
+/-- the states of the counterexample, spelled out -/
+example :
+    let k1 := (flush (run (start 9 0 0) frOps1) true 1000).k
+    k1.cwnd = 1 ∧ k1.snd_una = 1 ∧ k1.snd_nxt = 3 ∧
+    (run k1 (frOps2.take 2)).cwnd = 4 ∧ (run k1 (frOps2.take 2)).snd_una = 1 ∧
+    (run k1 frOps2).snd_una = 1 ∧ (run k1 frOps2).snd_nxt = 5 := by decide
+
+/-- `C04_no_admission_until_ack_partial` is not vacuous: the same traffic with the default `fastresend = 0`
+satisfies every hypothesis (and `snd_nxt` indeed stays at 3) -/
+def slOps1 : List Op :=
+  [.send [1], .send [2], .send [3], .send [4], .send [5], .flush true 100, .flush true 110, .input ackS0 true false 120]
+example :
+    okRun (start 9 0 0) slOps1 ∧ (run (start 9 0 0) slOps1).nocwnd = 0 ∧
+    (run (start 9 0 0) slOps1).fastresend.sle 0 = true ∧ flushLost (run (start 9 0 0) slOps1) 1000 > 0 ∧
+    okRun (flush (run (start 9 0 0) slOps1) true 1000).k frOps2 ∧
+    allAfter (fun x => x.nocwnd = 0 ∧ x.fastresend.sle 0 = true ∧
+        x.snd_una = (flush (run (start 9 0 0) slOps1) true 1000).k.snd_una)
+      (flush (run (start 9 0 0) slOps1) true 1000).k frOps2 ∧
+    (run (flush (run (start 9 0 0) slOps1) true 1000).k frOps2).snd_queue.length = 2 := by decide
 
 theorem C04_cwnd_unchanged_without_advance (k : Kcp) (oldUna : U32) (h : ¬ itimediff k.snd_una oldUna > 0) :
     cwndOnAck k oldUna = k := by
